@@ -8,3 +8,4 @@ require (
 	golang.org/x/mod v0.22.0 // indirect
 	golang.org/x/sync v0.10.0 // indirect
 )
+require gopkg.in/yaml.v3 v3.0.1
